@@ -28,7 +28,7 @@ ASSUMPTIONS = ['the C08_*_valid theorems are about the hand-written models: mode
                'ROUTE-REFRESH), YPrefix4.v (IPv4 prefix lists), YAttr.v (the twelve standard attributes), YOpen.v (OPEN), '
                'YUpdate.v (construct_attributes / Update.construct), YMp.v + YPrefix6/YVpn/YLu/YFlow4.v (MP_REACH / '
                'MP_UNREACH of IPv6 unicast, VPNv4/6, labeled unicast, IPv4 flow specification), YCommunity/YExtCom/'
-               'YLargeCom.v (communities from API text).  The models are tied to yabgp by the correspondence runs of '
+               'YLargeCom.v (communities from API text), YPmsi.v (PMSI tunnel attribute; correspondence run here: construct and parse).  The models are tied to yabgp by the correspondence runs of '
                'C14 (YMsg, YOpen), C06 (YPrefix4, YAttr, YUpdate), C07 (YMp and families) and C17 (communities); the '
                'small-message part and the witnesses of the C08_*_refuted theorems are re-run here.  YPrefix4.v models '
                'the code repaired by build/proposed/c06-prefix-zero-length.diff',
@@ -36,7 +36,7 @@ ASSUMPTIONS = ['the C08_*_valid theorems are about the hand-written models: mode
                'the address size; label stack not ending in label 0; flow-specification comparison bits within '
                'LT|GT|EQ); where yabgp does not enforce the range the refuting input is a theorem and a known finding',
                'an UPDATE that carries MP attributes next to standard ones, add-path UPDATEs as a whole, and every '
-               'constructor without a model (EVPN, SR-TE, IPv6 flow specification, tunnel encapsulation, PMSI) are '
+               'constructor without a model (EVPN, SR-TE, IPv6 flow specification, tunnel encapsulation) are '
                'covered by the walker run on the implementation over the generated input space only (test level, '
                'not proof)',
                'session context the octets do not show (4-octet AS, add-path, Cisco route-refresh type) is '
@@ -1014,6 +1014,83 @@ def correspondence_witnesses(ctx):
                               % descr[i], 'input': repr(descr[i])} for i in idx]
 
 
+PMSI_IMPORTS = 'From Coq Require Import ZArith.\nFrom YV Require Import lib.Base gen.Consts model.YExtCom model.YPmsi.\n'
+
+
+def correspondence_pmsi(ctx):
+    """model/YPmsi.v (the model the C08_pmsi_* theorems are about) vs PMSITunnel.construct / parse:
+    field values on both sides of every width, every tunnel type, both identifier families, every
+    evpn_overlay argument; parse on the constructed values, their truncations and other types/sizes"""
+    import netaddr
+    from yabgp.message.attribute.pmsitunnel import PMSITunnel
+    from session import Bytes, coq_sx
+    rng = ctx.rng
+    leafs = [0, 1, 255, 256, -1]
+    types = [6, 6, 6, 0, 1, 2, 3, 4, 5, 7, 255, 256]
+    labels = [0, 1, 625, 2 ** 20 - 1, 2 ** 20, 2 ** 20 + 5, 2 ** 24 - 1, 2 ** 24, 2 ** 28 - 1, 2 ** 28, 2 ** 32 - 1,
+              2 ** 32, -1, 60001]
+    ids = ['192.168.10.10', '0.0.0.0', '255.255.255.255', '4.4.4.4', '::', '::1', '2001:db8::4', 'ffff::ffff',
+           '::ffff:1.2.3.4', '0::4.4.4.4']
+    ovs = [(False, 'OvOff'), (None, 'OvOff'), ({}, 'OvOff')]
+    for evpn in (False, True):
+        for ec in (False, True):
+            for enc in (8, 9, 10, 0):
+                d = {'evpn': evpn, 'encap_ec': ec}
+                if ec:
+                    d['encap_value'] = enc
+                ovs.append((d, '(OvOn %s %d)' % ('true' if evpn and ec else 'false', enc)))
+    cons = []
+    for lf in leafs:
+        for tt in types[:4] if lf else types:
+            for lab in labels if lf in (0, 1) else labels[:3]:
+                cons.append((lf, tt, lab, rng.choice(ids), rng.choice(ovs)))
+    for tid in ids:
+        for ov in ovs:
+            cons.append((rng.choice([0, 1]), 6, rng.choice(labels), tid, ov))
+    if not ctx.thorough:
+        cons = cons[:40] + rng.sample(cons[40:], 260)
+    rows, descr, values = [], [], []
+    for (lf, tt, lab, tid, (ov, ovc)) in cons:
+        a = netaddr.IPAddress(tid)
+        val = {'mpls_label': [lab], 'tunnel_id': tid, 'tunnel_type': tt, 'leaf_info_required': lf}
+        try:
+            b = PMSITunnel.construct(val, ov)
+            impl = Bytes(b) if b is not None else 2
+            if b is not None:
+                values.append(bytes(b)[3:])
+        except Exception:
+            impl = 2
+        rows.append('(sx_pmsi_construct (pmsi_construct %s (mk_pmsi (%d)%%Z (%d)%%Z (%d)%%Z %s %d)), %s)'
+                    % (ovc, lf, tt, lab, 'true' if a.version == 6 else 'false', int(a), coq_sx(impl)))
+        descr.append(('construct', val, repr(ov)))
+    # parse: constructed values, every truncation of some, other tunnel types, identifier sizes 0..17
+    pv = list(dict.fromkeys(values))[:60]
+    for v in list(pv[:6]):
+        pv += [v[:k] for k in range(len(v))]
+    for tt in range(0, 9):
+        for n in (0, 1, 4, 5, 16, 17):
+            pv.append(bytes([rng.randrange(256), tt]) + bytes(rng.randrange(256) for _ in range(3 + n)))
+            pv.append(bytes([1, tt, 0xff, 0xff, 0xff]) + b'\xff' * n)
+            pv.append(bytes([0, tt, 0, 0, 16]) + b'\x00' * n)
+    for v in pv:
+        for vni in (False, True):
+            try:
+                r = PMSITunnel.parse(v, vni)
+                tid = r['tunnel_id']
+                pid = None if tid is None else (0 if tid == 'not supported' else [int(netaddr.IPAddress(tid))])
+                impl = [r['leaf_info_required'], r['tunnel_type'], r['mpls_label'][0], pid]
+            except Exception:
+                impl = 2
+            rows.append('(sx_pmsi_parse (pmsi_parse %s %s), %s)' % ('true' if vni else 'false', coq_bytes(v), coq_sx(impl)))
+            descr.append(('parse', v.hex(), vni))
+    text = 'Definition cases : list (sx * sx) := [\n%s\n].\nEval vm_compute in (mismatches cases).\n' % ';\n'.join(rows)
+    (rc, out), = common.coq_eval_shards(ctx.prop, [text], imports=PMSI_IMPORTS)
+    idx = common.parse_nats(out)
+    if rc != 0 or idx is None:
+        return len(rows), [{'what': 'PMSI case file does not evaluate: %s' % common.first_error(out)}]
+    return len(rows), [{'what': 'model/YPmsi.v and PMSITunnel differ: %r' % (descr[i],), 'input': repr(descr[i])} for i in idx]
+
+
 def run(ctx):
     cases = generate(ctx)
     msgs, n_exc, n_none, exc_kinds = run_constructors(cases)
@@ -1024,10 +1101,12 @@ def run(ctx):
     mism, viol = [], []
     n_corr = 0
     n_wit = 0
+    n_pmsi = 0
     if ctx.coq_ok:
         n_corr, mism = correspondence_small(ctx)
         n_wit, m2 = correspondence_witnesses(ctx)
-        mism = mism + m2
+        n_pmsi, m3 = correspondence_pmsi(ctx)
+        mism = mism + m2 + m3
     bad, errors = ([], ['spec/Walker.v does not compile']) if not walker_ok else walker_invalid(ctx, cases, msgs)
     for e in errors:
         mism.append({'what': e})
@@ -1056,7 +1135,7 @@ def run(ctx):
         classes[cls] = classes.get(cls, 0) + 1
     distinct = len({(cases[i][0], json.dumps(cases[i][2], sort_keys=True)) for (i, m) in msgs if m is not None})
     return {
-        'evaluations': len(cases) + n_corr + n_wit, 'distinct': distinct,
+        'evaluations': len(cases) + n_corr + n_wit + n_pmsi, 'distinct': distinct,
         'rule': 'constructor inputs: exhaustive prefix lengths (0..32, 0..128) for every family, every attribute '
                 'at its length/width boundaries (255/256 octets, 2^16, 2^32), both AS-number modes crossed with AS '
                 'numbers on both sides of 65535 and 2^32 for every attribute with an AS field (AGGREGATOR, AS_PATH, '
@@ -1072,7 +1151,7 @@ def run(ctx):
         'extra': {'constructor_calls': len(cases), 'messages_walked': len(msgs), 'raised_exception': n_exc,
                   'returned_none': n_none, 'exception_types': exc_kinds, 'input_classes': classes,
                   'invalid_by_class': per_class, 'correspondence_cases_small': n_corr,
-                  'correspondence_refutation_witnesses': n_wit,
+                  'correspondence_refutation_witnesses': n_wit, 'correspondence_cases_pmsi': n_pmsi,
                   'must_fail_inputs': sum(1 for (_, c, _) in cases if c in mf_classes),
                   'pending_inputs_skipped': getattr(generate, 'pending_skipped', 0),
                   'must_fail_inputs_accepted': len(must_fail),
